@@ -160,6 +160,28 @@ def one(rec, hub, seed, tier, i):
     if vname in [s[0] for s in spec]:
         vname = "value"
     df, info = F.render(spec, recs, rng, layout=layout, wide_dim=wide_dim, header=header, in_index=in_index, vname=vname, omit_single=omit, unnamed_year_index=bool(i % 6 == 4), foreign_named_index=bool(i % 6 == 2))
+    if not csv and rng.random() < 0.3 and isinstance(df.index, pd.RangeIndex):
+        # the same table in other column types, as other tools hand them over: categorical / nullable-integer / string-typed /
+        # float-typed label columns, nullable-float / single-precision / object-typed value columns (all values stay exactly the same)
+        df = df.copy()
+        for c_ in list(df.columns):
+            sp_ = info["dimcol_of"].get(c_)
+            try:
+                if sp_ is not None:
+                    kind_ = int(rng.integers(0, 4))
+                    if kind_ == 0:
+                        df[c_] = df[c_].astype("category")
+                    elif kind_ == 1 and sp_[3] is int:
+                        df[c_] = df[c_].astype("Int64")
+                    elif kind_ == 2 and sp_[3] is str:
+                        df[c_] = df[c_].astype("string")
+                    elif kind_ == 3 and sp_[3] is int:
+                        df[c_] = df[c_].astype(float)
+                elif layout == "long" and c_ == vname:
+                    df[c_] = df[c_].astype(["Float64", "float32", object, float][int(rng.integers(0, 4))])
+            except Exception:
+                pass
+        info["column_types"] = [str(t_) for t_ in df.dtypes]
     if csv:
         has_index = not isinstance(df.index, pd.RangeIndex) or df.index.names != [None]
         named = df.index.names != [None] or bool(info.get("unnamed_year_index"))  # an index that holds a dimension is written out
